@@ -1,6 +1,7 @@
 //! `rainverif <component> --tier quick|thorough --seed N --drv <raindrv> --out <file> [--replay-case "<line>"]`
 
 mod c12;
+mod c14;
 mod drv;
 mod par;
 mod prng;
@@ -28,6 +29,7 @@ fn main() {
     let corpus = arg(&args, "--corpus").unwrap_or_else(|| "/verif/corpus".into());
     let rep = match comp.as_str() {
         "c12" => c12::run(&tier, seed, &drv, replay.as_deref(), &format!("{corpus}/C12")),
+        "c14" => c14::run(&tier, seed, &drv, replay.as_deref(), &format!("{corpus}/C14")),
         other => {
             eprintln!("unknown component {other}");
             std::process::exit(2);
